@@ -380,7 +380,7 @@ func main() {
 			}
 		}
 		rng := run.Rand(20)
-		for i := 0; i < 20000; i++ {
+		for i := 0; i < 120000; i++ {
 			addm(rng.Uint32())
 		}
 	} else {
